@@ -1,263 +1,770 @@
 package main
 
-// Digest inputs (C15): the octet string each authenticator function feeds to MD5, regenerated from
-// the syntax as a list of pieces: a parameter (`[]byte(p)`, `p`), a run of zero octets
-// (`make([]byte, n)`, `[]byte{0, …}`), a parameter printed with "%010d".  Two shapes are recognised,
-// `md5.Sum(bytes.Join([][]byte{…}, nil))` and a `bytes.Buffer` filled by `WriteString` / `Write` and
-// handed to `md5.New().Write`; every other statement of the function must be one of the few listed
-// below, otherwise the function's entry is `unrecognised <pos>` and the C15 obligation fails.
+// Digest inputs (C15): the octet string each authenticator function feeds to MD5, regenerated from the
+// source by a small symbolic evaluation of byte-string values.  A value is a list of pieces: the
+// function's i-th argument, a run of zero octets, an argument printed with "%010d", a result of an
+// opaque library call (`t, ts := now()`), literal octets.  The evaluator follows assignments, `append`,
+// `bytes.Join`, conversions, `bytes.Buffer` / `hash.Hash` writes, `fmt.Sprintf` / `Fprintf` with
+// "%010d", loops over a literal or variadic list (unrolled) and calls of library functions (evaluated
+// with the argument values substituted).  It records the argument of every `md5.Sum` and the state of
+// every `md5.New()` hash at `Sum`.  Whatever it does not understand poisons the values it could have
+// changed: a poisoned or missing digest input is `unrecognised <pos>` and the C15 obligation fails.
+// The names of parameters and locals do not appear in the result.
 
 import (
 	"fmt"
 	"go/ast"
 	"go/constant"
+	"go/token"
 	"go/types"
 	"strings"
 )
 
 var digestFuncs = []string{modPath + "/cmpp.GenConnectAuth", modPath + "/cmpp.GenConnectRespAuthISMG", modPath + "/cmpp/cmpp20.NewConnect", modPath + "/smgp/smgp30.genAuthenticatorClient"}
 
-func (w *world) piece(info *types.Info, x ast.Expr) (string, bool) {
+type bval struct {
+	ps  []string // pieces
+	bad string   // non-empty: position of what was not understood
+}
+
+func (v bval) cat(o bval) bval {
+	r := bval{ps: append(append([]string{}, v.ps...), o.ps...), bad: v.bad}
+	if r.bad == "" {
+		r.bad = o.bad
+	}
+	return r
+}
+
+type dstate struct {
+	w       *world
+	digests []bval // inputs handed to MD5, in order
+	depth   int
+}
+
+type denv struct {
+	info  *types.Info
+	vals  map[types.Object]bval   // byte strings, buffers, hashes, arrays of octets
+	nums  map[types.Object]string // numbers: "arg i" / "res f k"
+	lists map[types.Object][]bval // [][]byte values (variadic parameter, literal)
+	st    *dstate
+}
+
+func isByteish(t types.Type) bool {
+	if t == nil {
+		return false
+	}
+	if p, ok := t.Underlying().(*types.Pointer); ok {
+		t = p.Elem()
+	}
+	switch u := t.Underlying().(type) {
+	case *types.Basic:
+		return u.Info()&types.IsString != 0
+	case *types.Slice:
+		b, ok := u.Elem().Underlying().(*types.Basic)
+		return ok && b.Kind() == types.Uint8
+	case *types.Array:
+		b, ok := u.Elem().Underlying().(*types.Basic)
+		return ok && b.Kind() == types.Uint8
+	}
+	s := t.String()
+	return s == "bytes.Buffer" || s == "hash.Hash" || s == "strings.Builder"
+}
+
+func isByteList(t types.Type) bool {
+	if t == nil {
+		return false
+	}
+	sl, ok := t.Underlying().(*types.Slice)
+	return ok && isByteSlice(sl.Elem())
+}
+
+func (e *denv) unknown(n ast.Node) bval { return bval{bad: e.st.w.pos(n)} }
+
+func (e *denv) obj(x ast.Expr) types.Object {
+	x = unparen(x)
+	if u, ok := x.(*ast.UnaryExpr); ok && u.Op == token.AND {
+		x = unparen(u.X)
+	}
+	if id, ok := x.(*ast.Ident); ok {
+		return e.info.ObjectOf(id)
+	}
+	return nil
+}
+
+func (e *denv) libFunc(c *ast.CallExpr) *types.Func {
+	var fn *types.Func
+	switch f := unparen(c.Fun).(type) {
+	case *ast.Ident:
+		fn, _ = e.info.Uses[f].(*types.Func)
+	case *ast.SelectorExpr:
+		if e.info.Selections[f] == nil {
+			fn, _ = e.info.Uses[f.Sel].(*types.Func)
+		}
+	}
+	if fn == nil || fn.Pkg() == nil || !strings.HasPrefix(fn.Pkg().Path(), modPath) {
+		return nil
+	}
+	if fd := e.st.w.funcs[fn]; fd == nil || fd.Body == nil {
+		return nil
+	}
+	return fn
+}
+
+func shortFuncName(fn *types.Func) string {
+	full := fn.FullName()
+	return full[strings.LastIndex(full, "/")+1:]
+}
+
+// num: a number that may be printed with %010d
+func (e *denv) num(x ast.Expr) (string, bool) {
+	x = unparen(x)
+	if id, ok := x.(*ast.Ident); ok {
+		if s, ok := e.nums[e.info.ObjectOf(id)]; ok {
+			return s, true
+		}
+	}
+	if c, ok := x.(*ast.CallExpr); ok && len(c.Args) == 1 { // a widening conversion
+		if tv, ok := e.info.Types[c.Fun]; ok && tv.IsType() {
+			to, from := uintWidth(tv.Type), uintWidth(e.info.TypeOf(c.Args[0]))
+			if (to >= from && from > 0) || isInt(tv.Type) {
+				return e.num(c.Args[0])
+			}
+		}
+	}
+	return "", false
+}
+
+func isFormat010(info *types.Info, x ast.Expr) bool {
+	tv := info.Types[x]
+	return tv.Value != nil && tv.Value.Kind() == constant.String && constant.StringVal(tv.Value) == "%010d"
+}
+
+// list evaluates a [][]byte expression
+func (e *denv) list(x ast.Expr) ([]bval, bool) {
 	x = unparen(x)
 	switch t := x.(type) {
 	case *ast.Ident:
-		if v, ok := info.Uses[t].(*types.Var); ok && !v.IsField() {
-			return ".param " + q(t.Name), true
+		l, ok := e.lists[e.info.ObjectOf(t)]
+		return l, ok
+	case *ast.CompositeLit:
+		if !isByteList(e.info.TypeOf(t)) {
+			return nil, false
 		}
-	case *ast.CallExpr:
-		// []byte(p)
-		if tv, ok := info.Types[t.Fun]; ok && tv.IsType() && len(t.Args) == 1 {
-			if id, ok := unparen(t.Args[0]).(*ast.Ident); ok {
-				if _, ok := info.Uses[id].(*types.Var); ok {
-					return ".param " + q(id.Name), true
-				}
+		var l []bval
+		for _, el := range t.Elts {
+			if _, isKV := el.(*ast.KeyValueExpr); isKV {
+				return nil, false
 			}
-			return "", false
+			l = append(l, e.bytes(el))
 		}
-		name := calleeFullName(info, t)
-		// make([]byte, n)
-		if id, ok := t.Fun.(*ast.Ident); ok && id.Name == "make" && len(t.Args) == 2 {
-			if tv := info.Types[t.Args[1]]; tv.Value != nil {
-				if n, ok := constant.Int64Val(tv.Value); ok {
-					return fmt.Sprintf(".zeros %d", n), true
-				}
-			}
+		return l, true
+	}
+	return nil, false
+}
+
+// bytes evaluates a byte-string expression (with its effects on buffers and hashes)
+func (e *denv) bytes(x ast.Expr) bval {
+	x = unparen(x)
+	if tv, ok := e.info.Types[x]; ok && tv.Value != nil && tv.Value.Kind() == constant.String {
+		s := constant.StringVal(tv.Value)
+		if s == "" {
+			return bval{}
 		}
-		// fmt.Sprintf("%010d", p)
-		if name == "fmt.Sprintf" && len(t.Args) == 2 {
-			if tv := info.Types[t.Args[0]]; tv.Value != nil && constant.StringVal(tv.Value) == "%010d" {
-				if id, ok := unparen(t.Args[1]).(*ast.Ident); ok {
-					return ".dec10 " + q(id.Name), true
-				}
-			}
+		var bs []string
+		for _, b := range []byte(s) {
+			bs = append(bs, fmt.Sprint(b))
+		}
+		return bval{ps: []string{".lit [" + strings.Join(bs, ", ") + "]"}}
+	}
+	switch t := x.(type) {
+	case *ast.Ident:
+		if t.Name == "nil" {
+			return bval{}
+		}
+		if v, ok := e.vals[e.info.ObjectOf(t)]; ok {
+			return v
+		}
+	case *ast.SliceExpr:
+		if t.Low == nil && t.High == nil && t.Max == nil {
+			return e.bytes(t.X)
+		}
+	case *ast.StarExpr:
+		return e.bytes(t.X)
+	case *ast.UnaryExpr:
+		if t.Op == token.AND {
+			return e.bytes(t.X)
+		}
+	case *ast.BinaryExpr:
+		if t.Op == token.ADD {
+			return e.bytes(t.X).cat(e.bytes(t.Y))
 		}
 	case *ast.CompositeLit:
-		// []byte{0, 0, …}
-		n := 0
-		for _, e := range t.Elts {
-			tv := info.Types[e]
-			if tv.Value == nil || constant.Sign(tv.Value) != 0 {
-				return "", false
+		typ := e.info.TypeOf(t)
+		if isByteish(typ) {
+			if arr, ok := typ.Underlying().(*types.Array); ok && len(t.Elts) == 0 {
+				return bval{ps: []string{fmt.Sprintf(".zeros %d", arr.Len())}}
 			}
-			n++
+			n := 0
+			var lits []string
+			allZero := true
+			for _, el := range t.Elts {
+				tv := e.info.Types[el]
+				if tv.Value == nil || tv.Value.Kind() != constant.Int {
+					return e.unknown(x)
+				}
+				if constant.Sign(tv.Value) != 0 {
+					allZero = false
+				}
+				lits = append(lits, tv.Value.ExactString())
+				n++
+			}
+			if n == 0 {
+				return bval{}
+			}
+			if allZero {
+				return bval{ps: []string{fmt.Sprintf(".zeros %d", n)}}
+			}
+			return bval{ps: []string{".lit [" + strings.Join(lits, ", ") + "]"}}
 		}
-		return fmt.Sprintf(".zeros %d", n), true
+	case *ast.CallExpr:
+		return e.call(t)
 	}
-	return "", false
+	return e.unknown(x)
+}
+
+func (e *denv) call(c *ast.CallExpr) bval {
+	// conversions
+	if tv, ok := e.info.Types[c.Fun]; ok && tv.IsType() && len(c.Args) == 1 {
+		if isByteish(tv.Type) && isByteish(e.info.TypeOf(c.Args[0])) {
+			return e.bytes(c.Args[0])
+		}
+		return e.unknown(c)
+	}
+	name := calleeFullName(e.info, c)
+	if id, ok := unparen(c.Fun).(*ast.Ident); ok {
+		if _, isB := e.info.Uses[id].(*types.Builtin); isB {
+			switch id.Name {
+			case "make":
+				if len(c.Args) >= 2 && isByteish(e.info.TypeOf(c.Args[0])) {
+					if tv := e.info.Types[c.Args[1]]; tv.Value != nil {
+						if n, ok := constant.Int64Val(tv.Value); ok {
+							if n == 0 {
+								return bval{}
+							}
+							return bval{ps: []string{fmt.Sprintf(".zeros %d", n)}}
+						}
+					}
+				}
+				return e.unknown(c)
+			case "new":
+				if len(c.Args) == 1 && isByteish(e.info.TypeOf(c.Args[0])) {
+					return bval{}
+				}
+				return e.unknown(c)
+			case "append":
+				if len(c.Args) == 0 {
+					return e.unknown(c)
+				}
+				v := e.bytes(c.Args[0])
+				if c.Ellipsis.IsValid() && len(c.Args) == 2 {
+					return v.cat(e.bytes(c.Args[1]))
+				}
+				var lits []string
+				for _, a := range c.Args[1:] {
+					tv := e.info.Types[a]
+					if tv.Value == nil || tv.Value.Kind() != constant.Int {
+						return e.unknown(c)
+					}
+					lits = append(lits, tv.Value.ExactString())
+				}
+				if len(lits) > 0 {
+					v = v.cat(bval{ps: []string{".lit [" + strings.Join(lits, ", ") + "]"}})
+				}
+				return v
+			}
+			return e.unknown(c)
+		}
+	}
+	switch name {
+	case "bytes.Join":
+		if len(c.Args) == 2 {
+			sep := e.bytes(c.Args[1])
+			if l, ok := e.list(c.Args[0]); ok && len(sep.ps) == 0 && sep.bad == "" {
+				var v bval
+				for _, el := range l {
+					v = v.cat(el)
+				}
+				return v
+			}
+		}
+		return e.unknown(c)
+	case "bytes.NewBuffer", "bytes.NewBufferString":
+		if len(c.Args) == 1 {
+			return e.bytes(c.Args[0])
+		}
+	case "fmt.Sprintf", "fmt.Sprint":
+		if name == "fmt.Sprintf" && len(c.Args) == 2 && isFormat010(e.info, c.Args[0]) {
+			if n, ok := e.num(c.Args[1]); ok {
+				return bval{ps: []string{".dec10 (." + n + ")"}}
+			}
+		}
+		return e.unknown(c)
+	case "crypto/md5.Sum":
+		if len(c.Args) == 1 {
+			e.st.digests = append(e.st.digests, e.bytes(c.Args[0]))
+			return bval{ps: []string{".digest"}}
+		}
+	case "crypto/md5.New":
+		return bval{}
+	}
+	// methods of tracked buffers and hashes
+	if se, ok := unparen(c.Fun).(*ast.SelectorExpr); ok && e.info.Selections[se] != nil {
+		if o := e.obj(se.X); o != nil {
+			if cur, tracked := e.vals[o]; tracked {
+				recvT := e.info.TypeOf(se.X).String()
+				isHash := strings.Contains(recvT, "hash.Hash")
+				isBuf := strings.Contains(recvT, "bytes.Buffer") || strings.Contains(recvT, "strings.Builder")
+				switch {
+				case (isHash || isBuf) && (se.Sel.Name == "Write" || se.Sel.Name == "WriteString") && len(c.Args) == 1:
+					e.vals[o] = cur.cat(e.bytes(c.Args[0]))
+					return bval{}
+				case isBuf && se.Sel.Name == "WriteByte" && len(c.Args) == 1:
+					tv := e.info.Types[c.Args[0]]
+					if tv.Value != nil && tv.Value.Kind() == constant.Int {
+						if constant.Sign(tv.Value) == 0 {
+							e.vals[o] = cur.cat(bval{ps: []string{".zeros 1"}})
+						} else {
+							e.vals[o] = cur.cat(bval{ps: []string{".lit [" + tv.Value.ExactString() + "]"}})
+						}
+						return bval{}
+					}
+				case isBuf && (se.Sel.Name == "Bytes" || se.Sel.Name == "String") && len(c.Args) == 0:
+					return cur
+				case isBuf && se.Sel.Name == "Len" && len(c.Args) == 0:
+					return bval{}
+				case isHash && se.Sel.Name == "Sum" && len(c.Args) == 1:
+					if pre := e.bytes(c.Args[0]); len(pre.ps) == 0 && pre.bad == "" {
+						e.st.digests = append(e.st.digests, cur)
+						return bval{ps: []string{".digest"}}
+					}
+				}
+				e.vals[o] = e.unknown(c)
+				return e.unknown(c)
+			}
+		}
+	}
+	// fmt.Fprintf(buf, "%010d", x) / io.WriteString(h, s)
+	if (name == "fmt.Fprintf" && len(c.Args) == 3) || (name == "io.WriteString" && len(c.Args) == 2) {
+		if o := e.obj(c.Args[0]); o != nil {
+			if cur, tracked := e.vals[o]; tracked {
+				if name == "io.WriteString" {
+					e.vals[o] = cur.cat(e.bytes(c.Args[1]))
+					return bval{}
+				}
+				if isFormat010(e.info, c.Args[1]) {
+					if n, ok := e.num(c.Args[2]); ok {
+						e.vals[o] = cur.cat(bval{ps: []string{".dec10 (." + n + ")"}})
+						return bval{}
+					}
+				}
+				e.vals[o] = e.unknown(c)
+				return e.unknown(c)
+			}
+		}
+	}
+	// a library function: evaluated with the argument values substituted
+	if fn := e.libFunc(c); fn != nil {
+		if v, ok := e.inline(fn, c); ok {
+			return v
+		}
+	}
+	// anything else: every tracked value handed over may have been changed
+	e.poisonArgs(c)
+	return e.unknown(c)
+}
+
+func (e *denv) poisonArgs(c *ast.CallExpr) {
+	for _, a := range c.Args {
+		if o := e.obj(a); o != nil {
+			if _, tracked := e.vals[o]; tracked {
+				switch e.info.TypeOf(a).Underlying().(type) {
+				case *types.Basic: // strings are immutable
+				default:
+					e.vals[o] = e.unknown(c)
+				}
+			}
+		}
+	}
+}
+
+// opaque: a library call without byte-string arguments whose results are only named (`t, ts := now()`)
+func (e *denv) opaque(c *ast.CallExpr) (*types.Func, bool) {
+	fn := e.libFunc(c)
+	if fn == nil || len(c.Args) != 0 {
+		return nil, false
+	}
+	if e.st.w.mentionsMD5(fn) {
+		return nil, false
+	}
+	return fn, true
+}
+
+func (w *world) mentionsMD5(fn *types.Func) bool {
+	fd := w.funcs[fn]
+	return fd != nil && mentions(w.infoOf[fd], fd.Body, "crypto/md5")
+}
+
+func (e *denv) inline(fn *types.Func, c *ast.CallExpr) (bval, bool) {
+	if e.st.depth > 4 {
+		return bval{}, false
+	}
+	w := e.st.w
+	fd := w.funcs[fn]
+	sig := fn.Type().(*types.Signature)
+	if fd.Recv != nil {
+		return bval{}, false
+	}
+	ne := &denv{info: w.infoOf[fd], vals: map[types.Object]bval{}, nums: map[types.Object]string{}, lists: map[types.Object][]bval{}, st: e.st}
+	np := sig.Params().Len()
+	for i := 0; i < np; i++ {
+		p := sig.Params().At(i)
+		if sig.Variadic() && i == np-1 {
+			if c.Ellipsis.IsValid() {
+				l, ok := e.list(c.Args[len(c.Args)-1])
+				if !ok {
+					return bval{}, false
+				}
+				ne.lists[p] = l
+			} else if isByteList(p.Type()) {
+				var l []bval
+				for _, a := range c.Args[i:] {
+					l = append(l, e.bytes(a))
+				}
+				ne.lists[p] = l
+			} else {
+				return bval{}, false
+			}
+			continue
+		}
+		if i >= len(c.Args) {
+			return bval{}, false
+		}
+		switch {
+		case isByteList(p.Type()):
+			l, ok := e.list(c.Args[i])
+			if !ok {
+				return bval{}, false
+			}
+			ne.lists[p] = l
+		case isByteish(p.Type()):
+			ne.vals[p] = e.bytes(c.Args[i])
+		default:
+			if n, ok := e.num(c.Args[i]); ok {
+				ne.nums[p] = n
+			}
+		}
+	}
+	e.st.depth++
+	ret, ok := ne.block(fd.Body.List)
+	e.st.depth--
+	if !ok {
+		return bval{}, false
+	}
+	if ret == nil {
+		return bval{}, true
+	}
+	return *ret, true
+}
+
+// touches: does the node assign to, or call anything with, a tracked value?
+func (e *denv) touches(n ast.Node) bool {
+	hit := false
+	ast.Inspect(n, func(m ast.Node) bool {
+		if id, ok := m.(*ast.Ident); ok {
+			if o := e.info.Uses[id]; o != nil {
+				if _, t := e.vals[o]; t {
+					hit = true
+				}
+				if _, t := e.lists[o]; t {
+					hit = true
+				}
+			}
+		}
+		if c, ok := m.(*ast.CallExpr); ok && strings.HasPrefix(calleeFullName(e.info, c), "crypto/md5") {
+			hit = true
+		}
+		return !hit
+	})
+	return hit
+}
+
+func (e *denv) poisonAll(n ast.Node) {
+	for o := range e.vals {
+		e.vals[o] = e.unknown(n)
+	}
+	e.st.digests = append(e.st.digests, e.unknown(n))
+}
+
+// effects evaluates the calls inside an expression whose value is not a byte string
+func (e *denv) effects(x ast.Expr) {
+	if x == nil {
+		return
+	}
+	ast.Inspect(x, func(m ast.Node) bool {
+		switch t := m.(type) {
+		case *ast.FuncLit:
+			if e.touches(t) {
+				e.poisonAll(t)
+			}
+			return false
+		case *ast.CallExpr:
+			if tv, ok := e.info.Types[t.Fun]; ok && tv.IsType() {
+				return true
+			}
+			if id, ok := unparen(t.Fun).(*ast.Ident); ok {
+				if _, isB := e.info.Uses[id].(*types.Builtin); isB && (id.Name == "len" || id.Name == "cap") {
+					return false
+				}
+			}
+			if e.touches(t) || e.libFuncMentionsMD5(t) {
+				e.call(t)
+				return false
+			}
+		}
+		return true
+	})
+}
+
+func (e *denv) libFuncMentionsMD5(c *ast.CallExpr) bool {
+	fn := e.libFunc(c)
+	return fn != nil && e.st.w.mentionsMD5(fn)
+}
+
+func (e *denv) assign(lhs ast.Expr, v bval, n ast.Node) {
+	lhs = unparen(lhs)
+	if id, ok := lhs.(*ast.Ident); ok {
+		if id.Name == "_" {
+			return
+		}
+		if o := e.info.ObjectOf(id); o != nil {
+			e.vals[o] = v
+			return
+		}
+	}
+	// an element, a field, a dereference: whatever it reaches is no longer known
+	ast.Inspect(lhs, func(m ast.Node) bool {
+		if id, ok := m.(*ast.Ident); ok {
+			if o := e.info.Uses[id]; o != nil {
+				if _, t := e.vals[o]; t {
+					e.vals[o] = e.unknown(n)
+				}
+			}
+		}
+		return true
+	})
+}
+
+// block executes statements; a non-nil result is the value returned
+func (e *denv) block(stmts []ast.Stmt) (*bval, bool) {
+	for _, st := range stmts {
+		switch s := st.(type) {
+		case *ast.DeclStmt:
+			gd, ok := s.Decl.(*ast.GenDecl)
+			if !ok || gd.Tok != token.VAR {
+				continue
+			}
+			for _, sp := range gd.Specs {
+				vs := sp.(*ast.ValueSpec)
+				for i, nm := range vs.Names {
+					o := e.info.ObjectOf(nm)
+					if o == nil || !isByteish(o.Type()) {
+						if i < len(vs.Values) {
+							e.effects(vs.Values[i])
+						}
+						continue
+					}
+					switch {
+					case i < len(vs.Values):
+						e.vals[o] = e.bytes(vs.Values[i])
+					default:
+						if arr, ok := o.Type().Underlying().(*types.Array); ok {
+							e.vals[o] = bval{ps: []string{fmt.Sprintf(".zeros %d", arr.Len())}}
+						} else {
+							e.vals[o] = bval{}
+						}
+					}
+				}
+			}
+		case *ast.AssignStmt:
+			if s.Tok != token.ASSIGN && s.Tok != token.DEFINE {
+				// x += y on strings; on numbers nothing to follow
+				if s.Tok == token.ADD_ASSIGN && len(s.Lhs) == 1 && isByteish(e.info.TypeOf(s.Lhs[0])) {
+					e.assign(s.Lhs[0], e.bytes(s.Lhs[0]).cat(e.bytes(s.Rhs[0])), s)
+					continue
+				}
+				for _, l := range s.Lhs {
+					if o := e.obj(l); o != nil {
+						delete(e.nums, o)
+					}
+				}
+				e.effects(s.Rhs[0])
+				continue
+			}
+			if len(s.Lhs) == len(s.Rhs) {
+				var vs []bval
+				for i := range s.Rhs {
+					switch {
+					case isByteList(e.info.TypeOf(s.Lhs[i])):
+						l, ok := e.list(s.Rhs[i])
+						if o := e.obj(s.Lhs[i]); o != nil && ok {
+							e.lists[o] = l
+						} else {
+							e.poisonAll(s)
+						}
+						vs = append(vs, bval{})
+					case isByteish(e.info.TypeOf(s.Lhs[i])):
+						vs = append(vs, e.bytes(s.Rhs[i]))
+					default:
+						if o := e.obj(s.Lhs[i]); o != nil {
+							if n, ok := e.num(s.Rhs[i]); ok {
+								e.nums[o] = n
+							} else {
+								delete(e.nums, o)
+							}
+						}
+						e.effects(s.Rhs[i])
+						vs = append(vs, bval{})
+					}
+				}
+				for i := range s.Lhs {
+					if isByteish(e.info.TypeOf(s.Lhs[i])) && !isByteList(e.info.TypeOf(s.Lhs[i])) {
+						e.assign(s.Lhs[i], vs[i], s)
+					}
+				}
+				continue
+			}
+			// a, b := f()
+			if len(s.Rhs) == 1 {
+				if c, ok := unparen(s.Rhs[0]).(*ast.CallExpr); ok {
+					if fn, ok := e.opaque(c); ok {
+						for k, l := range s.Lhs {
+							o := e.obj(l)
+							if o == nil {
+								continue
+							}
+							if isByteish(o.Type()) {
+								e.vals[o] = bval{ps: []string{fmt.Sprintf(".res %s %d", q(shortFuncName(fn)), k)}}
+							} else {
+								e.nums[o] = fmt.Sprintf("res %s %d", q(shortFuncName(fn)), k)
+							}
+						}
+						continue
+					}
+					v := e.call(c) // e.g. `_, err := h.Write(x)`, `n, err := buf.Write(x)`
+					for k, l := range s.Lhs {
+						if isByteish(e.info.TypeOf(l)) {
+							if k == 0 {
+								e.assign(l, v, s)
+							} else {
+								e.assign(l, e.unknown(s), s)
+							}
+						}
+					}
+					continue
+				}
+			}
+			e.poisonAll(s)
+		case *ast.ExprStmt:
+			if c, ok := unparen(s.X).(*ast.CallExpr); ok {
+				if e.touches(c) || e.libFuncMentionsMD5(c) {
+					e.call(c)
+				}
+				continue
+			}
+			e.effects(s.X)
+		case *ast.RangeStmt:
+			if l, ok := e.list(s.X); ok && s.Tok == token.DEFINE {
+				var vo types.Object
+				if s.Value != nil {
+					vo = e.obj(s.Value)
+				}
+				for _, el := range l {
+					if vo != nil {
+						e.vals[vo] = el
+					}
+					if ret, ok := e.block(s.Body.List); !ok || ret != nil {
+						return nil, false
+					}
+				}
+				if vo != nil {
+					delete(e.vals, vo)
+				}
+				continue
+			}
+			if e.touches(s) {
+				e.poisonAll(s)
+			}
+		case *ast.IfStmt:
+			if s.Init != nil {
+				if ret, ok := e.block([]ast.Stmt{s.Init}); !ok || ret != nil {
+					return nil, false
+				}
+			}
+			e.effects(s.Cond)
+			// an error exit that builds nothing: `if err != nil { return nil, err }`
+			if s.Else == nil && !e.touches(s.Body) {
+				continue
+			}
+			e.poisonAll(s)
+		case *ast.ReturnStmt:
+			if len(s.Results) >= 1 && isByteish(e.info.TypeOf(s.Results[0])) {
+				v := e.bytes(s.Results[0])
+				for _, r := range s.Results[1:] {
+					e.effects(r)
+				}
+				return &v, true
+			}
+			for _, r := range s.Results {
+				e.effects(r)
+			}
+			v := bval{}
+			return &v, true
+		case *ast.IncDecStmt, *ast.EmptyStmt:
+		default:
+			if e.touches(st) {
+				e.poisonAll(st)
+			}
+		}
+	}
+	return nil, true
 }
 
 func (w *world) digestOf(fn *types.Func) []string {
 	fd := w.funcs[fn]
 	info := w.infoOf[fd]
-	bad := func(n ast.Node) []string { return []string{".unrecognised " + q(w.pos(n))} }
-	var pieces []string
-	found := false
-	var bufObj types.Object
-	fromJoin := func(arg ast.Expr) ([]string, bool) {
-		c, ok := unparen(arg).(*ast.CallExpr)
-		if !ok || calleeFullName(info, c) != "bytes.Join" || len(c.Args) != 2 {
-			return nil, false
-		}
-		if id, ok := unparen(c.Args[1]).(*ast.Ident); !ok || id.Name != "nil" {
-			return nil, false
-		}
-		cl, ok := unparen(c.Args[0]).(*ast.CompositeLit)
-		if !ok {
-			return nil, false
-		}
-		var ps []string
-		for _, e := range cl.Elts {
-			p, ok := w.piece(info, e)
-			if !ok {
-				return nil, false
-			}
-			ps = append(ps, p)
-		}
-		return ps, true
-	}
-	// md5Concat(a, b, c): a library helper `func h(parts ...[]byte) []byte { s := md5.Sum(bytes.Join(parts, nil)); return s[:] }`
-	fromHelper := func(x ast.Expr) ([]string, bool) {
-		c, ok := unparen(x).(*ast.CallExpr)
-		if !ok || c.Ellipsis.IsValid() {
-			return nil, false
-		}
-		var hfn *types.Func
-		switch f := unparen(c.Fun).(type) {
-		case *ast.Ident:
-			hfn, _ = info.Uses[f].(*types.Func)
-		case *ast.SelectorExpr:
-			hfn, _ = info.Uses[f.Sel].(*types.Func)
-		}
-		if hfn == nil || hfn.Pkg() == nil || !strings.HasPrefix(hfn.Pkg().Path(), modPath) {
-			return nil, false
-		}
-		hfd := w.funcs[hfn]
-		sig := hfn.Type().(*types.Signature)
-		if hfd == nil || hfd.Body == nil || !sig.Variadic() || sig.Params().Len() != 1 || len(hfd.Body.List) != 2 {
-			return nil, false
-		}
-		hinfo := w.infoOf[hfd]
-		param := sig.Params().At(0)
-		a, ok1 := hfd.Body.List[0].(*ast.AssignStmt)
-		r, ok2 := hfd.Body.List[1].(*ast.ReturnStmt)
-		if !ok1 || !ok2 || len(a.Lhs) != 1 || len(a.Rhs) != 1 || len(r.Results) != 1 {
-			return nil, false
-		}
-		sc, ok := unparen(a.Rhs[0]).(*ast.CallExpr)
-		if !ok || calleeFullName(hinfo, sc) != "crypto/md5.Sum" || len(sc.Args) != 1 {
-			return nil, false
-		}
-		jc, ok := unparen(sc.Args[0]).(*ast.CallExpr)
-		if !ok || calleeFullName(hinfo, jc) != "bytes.Join" || len(jc.Args) != 2 || !isObjIdent(hinfo, jc.Args[0], param) {
-			return nil, false
-		}
-		if id, ok := unparen(jc.Args[1]).(*ast.Ident); !ok || id.Name != "nil" {
-			return nil, false
-		}
-		sl, ok := unparen(r.Results[0]).(*ast.SliceExpr)
-		if !ok || sl.Low != nil || sl.High != nil || !isObjIdent(hinfo, sl.X, hinfo.Defs[a.Lhs[0].(*ast.Ident)]) {
-			return nil, false
-		}
-		var ps []string
-		for _, e := range c.Args {
-			p, ok := w.piece(info, e)
-			if !ok {
-				return nil, false
-			}
-			ps = append(ps, p)
-		}
-		return ps, true
-	}
-	for _, st := range fd.Body.List {
-		switch s := st.(type) {
-		case *ast.AssignStmt:
-			if len(s.Rhs) != 1 {
-				return bad(st)
-			}
-			if ps, ok := fromHelper(s.Rhs[0]); ok && !found {
-				pieces, found = ps, true
-				continue
-			}
-			c, isCall := unparen(s.Rhs[0]).(*ast.CallExpr)
-			if !isCall {
-				// e.g. connectPdu := &PduConnect{…}: allowed only after the digest has been taken, and it must not touch md5
-				if found && !mentions(info, s.Rhs[0], "crypto/md5") {
-					continue
-				}
-				return bad(st)
-			}
-			switch name := calleeFullName(info, c); {
-			case name == "crypto/md5.Sum" && len(c.Args) == 1 && !found:
-				ps, ok := fromJoin(c.Args[0])
-				if !ok {
-					return bad(st)
-				}
-				pieces, found = ps, true
-			case name == "new" || (len(c.Args) == 1 && fmt.Sprint(c.Fun) == "new"):
-				// buf := new(bytes.Buffer)
-				if id, ok := s.Lhs[0].(*ast.Ident); ok && bufObj == nil {
-					bufObj = info.Defs[id]
-					continue
-				}
-				return bad(st)
-			case name == "crypto/md5.New":
-				continue
-			case strings.HasSuffix(name, ".Write") && len(c.Args) == 1 && bufObj != nil && !found:
-				// _, err := h.Write(buf.Bytes())
-				bc, ok := unparen(c.Args[0]).(*ast.CallExpr)
-				if !ok {
-					return bad(st)
-				}
-				se, ok := bc.Fun.(*ast.SelectorExpr)
-				if !ok || se.Sel.Name != "Bytes" || !isObjIdent(info, se.X, bufObj) {
-					return bad(st)
-				}
-				found = true
-			default:
-				// a call that does not involve md5 or the buffer (e.g. `t, ts := now()`)
-				if !mentions(info, s.Rhs[0], "crypto/md5") && (bufObj == nil || !usesObj(info, s.Rhs[0], bufObj)) {
-					continue
-				}
-				return bad(st)
-			}
-		case *ast.ExprStmt:
-			c, ok := s.X.(*ast.CallExpr)
-			if !ok {
-				return bad(st)
-			}
-			// fmt.Fprintf(buf, "%010d", x)
-			if calleeFullName(info, c) == "fmt.Fprintf" && len(c.Args) == 3 && bufObj != nil && isObjIdent(info, c.Args[0], bufObj) && !found {
-				if tv := info.Types[c.Args[1]]; tv.Value != nil && constant.StringVal(tv.Value) == "%010d" {
-					if id, ok := unparen(c.Args[2]).(*ast.Ident); ok {
-						pieces = append(pieces, ".dec10 "+q(id.Name))
-						continue
-					}
-				}
-				return bad(st)
-			}
-			se, ok := c.Fun.(*ast.SelectorExpr)
-			if !ok || bufObj == nil || !isObjIdent(info, se.X, bufObj) || found || len(c.Args) != 1 || (se.Sel.Name != "WriteString" && se.Sel.Name != "Write") {
-				return bad(st)
-			}
-			p, ok := w.piece(info, c.Args[0])
-			if !ok {
-				return bad(st)
-			}
-			pieces = append(pieces, p)
-		case *ast.IfStmt:
-			// if _, err := h.Write(buf.Bytes()); err != nil { return nil, err }
-			if a, ok := s.Init.(*ast.AssignStmt); ok && !found && bufObj != nil && len(a.Rhs) == 1 {
-				if c, ok := unparen(a.Rhs[0]).(*ast.CallExpr); ok && len(c.Args) == 1 && strings.HasSuffix(calleeFullName(info, c), ".Write") {
-					if bc, ok := unparen(c.Args[0]).(*ast.CallExpr); ok {
-						if se, ok := bc.Fun.(*ast.SelectorExpr); ok && se.Sel.Name == "Bytes" && isObjIdent(info, se.X, bufObj) {
-							found = true
-							continue
-						}
-					}
-				}
-				return bad(st)
-			}
-			if !found || s.Init != nil {
-				return bad(st)
-			}
-		case *ast.ReturnStmt:
-			if !found && len(s.Results) == 1 {
-				if ps, ok := fromHelper(s.Results[0]); ok {
-					pieces, found = ps, true
-					continue
-				}
-			}
-			if !found {
-				return bad(st)
-			}
-		default:
-			return bad(st)
+	st := &dstate{w: w}
+	e := &denv{info: info, vals: map[types.Object]bval{}, nums: map[types.Object]string{}, lists: map[types.Object][]bval{}, st: st}
+	sig := fn.Type().(*types.Signature)
+	for i := 0; i < sig.Params().Len(); i++ {
+		p := sig.Params().At(i)
+		switch {
+		case isByteish(p.Type()):
+			e.vals[p] = bval{ps: []string{fmt.Sprintf(".arg %d", i)}}
+		case uintWidth(p.Type()) > 0 || isInt(p.Type()):
+			e.nums[p] = fmt.Sprintf("arg %d", i)
 		}
 	}
-	if !found {
+	if _, ok := e.block(fd.Body.List); !ok {
 		return []string{".unrecognised " + q(w.pos(fd))}
 	}
-	return pieces
+	if len(st.digests) != 1 {
+		return []string{".unrecognised " + q(fmt.Sprintf("%s: %d digests", w.pos(fd), len(st.digests)))}
+	}
+	d := st.digests[0]
+	if d.bad != "" {
+		return []string{".unrecognised " + q(d.bad)}
+	}
+	return d.ps
 }
 
 func isObjIdent(info *types.Info, x ast.Expr, o types.Object) bool {
@@ -280,7 +787,9 @@ func mentions(info *types.Info, n ast.Node, pkgPath string) bool {
 
 func (w *world) genDigests() string {
 	var sb strings.Builder
-	sb.WriteString("inductive Piece where\n  | param (name : String)\n  | zeros (n : Nat)\n  | dec10 (name : String)\n  | unrecognised (pos : String)\n  deriving Repr, DecidableEq\n\n")
+	sb.WriteString("inductive Num where\n  | arg (i : Nat)\n  | res (fn : String) (k : Nat)\n  deriving Repr, DecidableEq\n\n")
+	sb.WriteString("/-- a piece of what is handed to MD5: the function's i-th argument, zero octets, a number printed with \"%010d\",\n    the k-th result of a call without arguments, literal octets, the digest of an earlier MD5 call -/\n")
+	sb.WriteString("inductive Piece where\n  | arg (i : Nat)\n  | zeros (n : Nat)\n  | dec10 (x : Num)\n  | res (fn : String) (k : Nat)\n  | lit (bs : List Nat)\n  | digest\n  | unrecognised (pos : String)\n  deriving Repr, DecidableEq\n\n")
 	var rows []string
 	for _, full := range digestFuncs {
 		var fn *types.Func
